@@ -148,6 +148,8 @@ pub fn c15(tier: &str, seed: u64, meta: &str) -> Report {
     let fpr = &fp;
     let all_words: HashSet<&str> = fp.words.iter().map(|s| s.as_str()).collect();
     let all_words = &all_words;
+    let reph_ya: Vec<&String> = fp.words.iter().filter(|w| w.contains("র্য")).collect();
+    let reph_ya = &reph_ya;
     let mut rep = par_items(total, |_| (Worker2::new(fpr.p.data.clone()), HashMap::<u32, Session>::new()), |st, i, rep| {
         let (w, sessions) = st;
         let mut rng = Rng::new(seed ^ i.wrapping_mul(0xC15));
@@ -158,10 +160,18 @@ pub fn c15(tier: &str, seed: u64, meta: &str) -> Report {
         }
         let s = sessions.get_mut(&bits).unwrap();
         if s.history.len() > 3000 { s.history.clear(); }
-        let base = fpr.words[(rng.next() % fpr.words.len() as u64) as usize].clone();
+        let with_zwj = i % 25 == 7 && !reph_ya.is_empty();
+        let base = if with_zwj { (*rng.pick(reph_ya)).clone() } else { fpr.words[(rng.next() % fpr.words.len() as u64) as usize].clone() };
         let n = base.chars().count();
-        let take = 1 + rng.below(n.min(6));
-        let prefix: String = base.chars().take(take).collect();
+        let take = if with_zwj { (base.chars().collect::<Vec<_>>().windows(3).position(|x| x == ['র', '্', 'য']).unwrap_or(0) + 3 + rng.below(2)).min(n) } else { 1 + rng.below(n.min(6)) };
+        let mut prefix: String = base.chars().take(take).collect();
+        if with_zwj { prefix = prefix.replacen("র্য", "র\u{200D}্য", 1); }
+        // explicit joiners in the typed word: a zero-width joiner is significant (Ra + ZWJ + Zo-fola is not Reph + Ya),
+        // a zero-width non-joiner is what traditional joining adds and is ignored
+        if rng.chance(1, 8) {
+            if prefix.contains("র্য") && rng.chance(2, 3) { prefix = prefix.replacen("র্য", "র\u{200D}্য", 1); }
+            else { let cs: Vec<char> = prefix.chars().collect(); let at = 1 + rng.below(cs.len()); prefix = cs[..at].iter().chain([if rng.chance(2, 3) { '\u{200D}' } else { '\u{200C}' }].iter()).chain(cs[at..].iter()).collect(); }
+        }
         let lead = *rng.pick(&["", "", "", "(", "\"", "'"][..]);
         let trail = *rng.pick(&["", "", "", "!!", ")", "\".", "'", "?!", ",", ";;"][..]);
         let typed_text = format!("{}{}{}", lead, prefix, trail);
@@ -206,7 +216,7 @@ pub fn c15(tier: &str, seed: u64, meta: &str) -> Report {
         if list.len() > 2 { rep.nontrivial_key(&format!("{} {}", bits, aux)); }
         if rep.samples.len() < 2 && i % 997 == 3 { rep.sample(json!({"typed": typed_text, "composed_text": aux, "option_bits": bits, "candidates": list})); }
     });
-    rep.extra.insert("rule".into(), json!("prefixes (1-6 letters) of random dictionary words typed through Probhat, bare or wrapped in quotes / brackets / repeated marks, sometimes followed by a backspace, under the 16 settings of traditional joining, smart quotes, English, ANSI; every list judged against dictionary.json read independently (membership, prefix, edit distance order, at most nine, no repeats, English last); also compared with the extracted model; non-trivial = more than two candidates"));
+    rep.extra.insert("rule".into(), json!("prefixes (1-6 letters) of random dictionary words typed through Probhat, an eighth of them with an explicit zero-width joiner / non-joiner typed inside (Ra + ZWJ + Zo-fola where the word has Reph + Ya), bare or wrapped in quotes / brackets / repeated marks, sometimes followed by a backspace, under the 16 settings of traditional joining, smart quotes, English, ANSI; every list judged against dictionary.json read independently (membership, prefix, edit distance order, at most nine, no repeats, English last); also compared with the extracted model; non-trivial = more than two candidates"));
     rep
 }
 
@@ -244,11 +254,15 @@ pub fn c16(tier: &str, seed: u64, meta: &str) -> Report {
             if !phonetic { o.fixed_suggestion = true; o.kar = rng_bit(i, 3); }
             Session::new(w, o, None, None, "c16").ok()
         };
+        let self_mapped: Vec<String> = fpr.p.ac_keys.iter().filter(|k| w.oracle.ac(k).map(|v| v == *k).unwrap_or(false)).cloned().collect();
         let smart = i % 4 < 2;
         let (mut s_on_e, mut s_on, mut s_off) = match (mk(w, true, true, i % 8 >= 4, smart), mk(w, true, false, false, smart), mk(w, false, true, false, smart)) { (Some(a), Some(b), Some(c)) => (a, b, c), _ => return };
         for _ in 0..per {
             let evs: Vec<SEv> = if phonetic {
-                let t = match rng.below(6) { 0 => format!("\"{}\"", rng.pick(&["\\", "`", "k", "ami", "a`"][..])), 1 => rng.pick(&fpr.p.emoticons).clone(), 2 => rng.pick(&fpr.p.emoji_names).clone(), _ => word_pool(&fpr.p, &mut rng, 1).pop().unwrap_or_else(|| "ami".into()) };
+                let t = match rng.below(7) { 0 => format!("\"{}\"", rng.pick(&["\\", "`", "k", "ami", "a`"][..])), 1 => rng.pick(&fpr.p.emoticons).clone(), 2 => rng.pick(&fpr.p.emoji_names).clone(),
+                    // bundled auto-correct rows that map a text to itself (emoticon-like texts such as o_o, :D, X3)
+                    3 if !self_mapped.is_empty() => rng.pick(&self_mapped).clone(),
+                    _ => word_pool(&fpr.p, &mut rng, 1).pop().unwrap_or_else(|| "ami".into()) };
                 if !fpr.p.typeable(&t) { continue; }
                 fpr.p.key_events(&t, 0)
             } else {
@@ -257,7 +271,10 @@ pub fn c16(tier: &str, seed: u64, meta: &str) -> Report {
                 let t = format!("{}{}{}", rng.pick(&["", "\"", "("][..]), prefix, rng.pick(&["", "\"", ")", "!"][..]));
                 match fpr.keys_for(&t) { Some(k) => k, None => continue }
             };
+            let mut raw = String::new();
             for e in evs.iter().chain(std::iter::once(&SEv::Finish)) {
+                if let SEv::Key(k, _, _) = e { if let Some(c) = key_char(*k) { raw.push_str(&c.to_string()); } }
+                let raw = raw.clone();
                 let a = feed(w, &mut s_on_e, &[e.clone()], rep, "C16").pop().unwrap();
                 let b = feed(w, &mut s_on, &[e.clone()], rep, "C16").pop().unwrap();
                 let c = feed(w, &mut s_off, &[e.clone()], rep, "C16").pop().unwrap();
@@ -273,6 +290,7 @@ pub fn c16(tier: &str, seed: u64, meta: &str) -> Report {
                     };
                     for (cand, pre) in items {
                         if ansi {
+                            if cand == raw && raw.chars().any(|c| c.is_ascii_alphabetic()) { rep.fail(describe(s, "the raw typed (English / emoticon) text is offered as a candidate although ANSI output is on", json!({"candidate": cand}))); }
                             if is_emoji_str(&cand) { rep.fail(describe(s, "an emoji candidate is offered although ANSI output is on", json!({"candidate": cand}))); }
                             match (w.oracle.bijoy(&cand), pre) {
                                 (Some(exp), Ok(got)) => {
@@ -295,7 +313,7 @@ pub fn c16(tier: &str, seed: u64, meta: &str) -> Report {
             }
         }
     });
-    rep.extra.insert("rule".into(), json!("three contexts fed the same events in both methods: ANSI+English on (the two setters called in either order), ANSI on with English off, ANSI off; phonetic: word pool, emoticons, emoji names, quoted non-letters; fixed: prefixes of dictionary words and Bengali emoji names through Probhat with quotes; every candidate's pre-edit text is compared with poriborton called directly; thorough adds the encoder over all dictionary words; non-trivial = the ANSI-off list is longer than the ANSI list (something was withheld)"));
+    rep.extra.insert("rule".into(), json!("three contexts fed the same events in both methods: ANSI+English on (the two setters called in either order), ANSI on with English off, ANSI off; phonetic: word pool, emoticons, emoji names, self-mapping auto-correct rows, quoted non-letters; fixed: prefixes of dictionary words and Bengali emoji names through Probhat with quotes; every candidate's pre-edit text is compared with poriborton called directly; thorough adds the encoder over all dictionary words; non-trivial = the ANSI-off list is longer than the ANSI list (something was withheld)"));
     rep
 }
 
